@@ -121,6 +121,10 @@ func genTypes(t *rapid.T, p *Project, pf Profile) *typeCtx {
 			}
 			d.Consts = append(d.Consts, c)
 		}
+		if len(d.Consts) >= 3 && rapid.IntRange(0, 3).Draw(t, "dupValue") == 0 {
+			// two names for one value (StatusOn = "on"; StatusEnabled = "on"): legal Go, and the enum still has that value once
+			d.Consts[1].Value = d.Consts[0].Value
+		}
 		d.MultiNameConsts = rapid.IntRange(0, 3).Draw(t, "multiNameConsts") == 0
 		p.Types = append(p.Types, d)
 		ctx.enums = append(ctx.enums, Named(pkg, d.Name))
